@@ -91,17 +91,19 @@ def rxBody : List Char → List RxItem
   | '_' :: rest => .any :: rxBody rest
   | c :: rest => .lit c :: rxBody rest
 
+/-- the end of `regex_like`: `if result.ends_with(".*") { pop; pop } else { push('$') }` -/
+def regexTail (as : Bool) (items : List RxItem) : Rx :=
+  if items.getLast? = some .star then ⟨as, items.dropLast, false⟩ else ⟨as, items, true⟩
+
 /-- `fn regex_like(pattern, case_insensitive)`: a leading `%` is skipped instead of emitting
 `^.*`; a trailing `.*` is popped instead of emitting `.*$`.  (In the Rust code the second
 test is textual, `result.ends_with(".*")`; the only way the produced text can end in an
 unescaped `*` preceded by `.` is a final `%`, because a literal `*` is always emitted as
 `\*`.) -/
 def regexLike (p : List Char) : Rx :=
-  let (as, body) := match p with
-    | '%' :: rest => (false, rest)
-    | _ => (true, p)
-  let items := rxBody body
-  if items.getLast? = some .star then ⟨as, items.dropLast, false⟩ else ⟨as, items, true⟩
+  match p with
+  | '%' :: rest => regexTail false (rxBody rest)
+  | _ => regexTail true (rxBody p)
 
 /-- match `items` at the *start* of `s`; with `ae` the match must end at the end of `s`
 (`$` without multi-line).  `eqv` is how the engine compares a literal with a subject
